@@ -40,7 +40,6 @@ C17_SAMPLE = dict(
         ("results", "w", "world"),
         ("numpy.random.SeedSequence(__s).spawn(__n)", "!spawn_seeds {s} {n}", "seeds", {"s": "Z", "n": "Z"}),
         ("numpy.random.default_rng(__q[__i])", "!rng_of_spawned {q} {i}", "rngkey", {"q": "seeds", "i": "Z"}),
-        ("numpy.random.default_rng(__s)", "!rng_of_seed {s}", "rngkey", {"s": "Z"}),
     ],
     effects=[
         ("model.reset_model()", "w", "emit {state} Reset"),
